@@ -372,4 +372,6 @@ def job_co(job, real_parts=False, defaults=False):
 
 def jobs(tier):
     return [("water", job_water), ("dgor", job_dgor), ("dgor-int-pressure", lambda j: job_dgor(j, True)), ("dgor-after-another-gas-gravity", lambda j: job_dgor(j, False, True)), ("dbo", job_dbo),
-            ("co-uf", lambda j: job_co(j, False)), ("co-real", lambda j: job_co(j, True)), ("co-uf-default-standard-conditions", lambda j: job_co(j, False, True))]
+            ("co-uf", lambda j: job_co(j, False)), ("co-real", lambda j: job_co(j, True)), ("co-uf-default-standard-conditions", lambda j: job_co(j, False, True))] + \
+        ([] if tier == "quick" else [("co-real-default-standard-conditions", lambda j: job_co(j, True, True)),
+                                     ("dgor-int-pressure-after-another-gas-gravity", lambda j: job_dgor(j, True, True))])
